@@ -1,5 +1,5 @@
 (** * C16 — the command-line tool compiles exactly the statements it is given (partial). *)
-From PQL Require Import Model.Cli Proofs.CliFacts.
+From PQL Require Import Model.Cli Spec.CliSpec Proofs.CliFacts Proofs.CliSpecFacts.
 From Coq Require Import String.
 Local Open Scope list_scope.
 Local Open Scope nat_scope.
@@ -32,3 +32,26 @@ Print Assumptions C16_let_statement.
 Theorem C16_output_append_only : forall evs st, exists suffix, o_stdout (run_events st evs) = out st ++ suffix.
 Proof. exact output_is_append_only. Qed.
 Print Assumptions C16_output_append_only.
+
+(** The main statement.  [expected script] (coq/Spec/CliSpec.v) is the one-shot specification: cut the
+    whole script at its semicolon tokens; every piece but the last is a terminated statement, handled
+    in order with the accumulated let prelude (a let is accepted into the prelude or reported, a query
+    printed followed by a blank line or reported); the last piece is compiled as a query under the
+    prelude if it has any token.  For every list of lines - several statements per line, statements
+    across lines, comments and blank lines between, last statement terminated or not - the tool's line
+    loop (re-splitting its growing buffer after every line, carrying the unterminated rest) computes
+    exactly that on the text it has read. *)
+Theorem C16_run_is_expected : forall lines, run (map Line lines) = expected (text_of lines).
+Proof. exact run_is_expected. Qed.
+Print Assumptions C16_run_is_expected.
+
+(** layout freedom: two ways of cutting the same text into lines behave the same *)
+Theorem C16_layout_free : forall l1 l2, text_of l1 = text_of l2 -> run (map Line l1) = run (map Line l2).
+Proof. exact layout_free. Qed.
+Print Assumptions C16_layout_free.
+
+(** the lexer fact it rests on: a newline is a hard token boundary *)
+Theorem C16_newline_boundary : forall a b,
+  scan (a ++ 10%N :: b) = scan (a ++ [10%N]) ++ map (ScanCut.shift_tok (S (length a))) (scan b).
+Proof. exact ScanCut.scan_nl. Qed.
+Print Assumptions C16_newline_boundary.
